@@ -82,6 +82,10 @@ type gworld struct {
 	probeLocks bool
 	runActive  map[int]bool
 	usedDeps   [][]int // dependencies each query resolved in its last execution
+	// poisoned[k]: the current memo entry of k is an error that k's Execute
+	// propagated (Resolve's cancellation error, or a dependency's fatal error),
+	// not a value. Only possible after some Run was cancelled or panicked.
+	poisoned []bool
 
 	concurrentPanicPossible bool
 }
@@ -96,6 +100,7 @@ func newWorld(prop string, g GraphSpec, par int) *gworld {
 	w.memo = make([]bool, g.N)
 	w.executedBy = make([]int, g.N)
 	w.usedDeps = make([][]int, g.N)
+	w.poisoned = make([]bool, g.N)
 	for i := range w.executedBy {
 		w.executedBy[i] = -1
 	}
@@ -150,7 +155,10 @@ func (w *gworld) modelValue(id int, cache map[int]int64) int64 {
 func (q gquery) Execute(t *incremental.Task) (int64, error) {
 	w := q.w
 	run, _ := t.Context().Value(runTagKey{}).(int)
-	if w.executing[q.id] || w.memo[q.id] {
+	// (A poisoned entry may or may not have been kept by the executor: when the
+	// goroutine that propagated the error has also lost its semaphore hold to
+	// the cancellation, the executor drops the result instead of memoising it.)
+	if w.executing[q.id] || w.memo[q.id] && !w.poisoned[q.id] {
 		w.fail(viol(w.prop+"/executed-twice", "query %d executed (run %d) although it is already %s since its last eviction", q.id, run,
 			map[bool]string{true: "executing", false: "memoised"}[w.executing[q.id]]))
 	}
@@ -166,7 +174,15 @@ func (q gquery) Execute(t *incremental.Task) (int64, error) {
 	defer func() { w.executing[q.id] = false }()
 
 	deps := w.effDeps(q.id)
-	w.usedDeps[q.id] = deps
+	w.usedDeps[q.id] = nil
+	// An execution that ends by propagating an error is memoised like any other
+	// (the executor cannot tell); the model records it as a poisoned entry.
+	poison := func() {
+		w.memo[q.id] = true
+		w.poisoned[q.id] = true
+		w.executedBy[q.id] = run
+		sim.S().Probe("memo-poisoned")
+	}
 	groups := []int{len(deps)}
 	if q.id < len(w.g.Groups) && len(w.g.Groups[q.id]) > 0 {
 		groups = w.g.Groups[q.id]
@@ -184,13 +200,17 @@ func (q gquery) Execute(t *incremental.Task) (int64, error) {
 		for i := 0; i < n; i++ {
 			qs[i] = gquery{w, deps[pos+i]}
 		}
+		// (the dependency edges are recorded by Resolve whatever its outcome)
+		w.usedDeps[q.id] = append(w.usedDeps[q.id], deps[pos:pos+n]...)
 		rs, err := incremental.Resolve(t, qs...)
 		if err != nil {
+			poison()
 			return 0, err
 		}
 		for i, r := range rs {
 			w.obs = append(w.obs, observation{run: run, caller: q.id, dep: deps[pos+i], changed: r.Changed, value: r.Value, fatal: r.Fatal})
 			if r.Fatal != nil {
+				poison()
 				return 0, r.Fatal
 			}
 			vals = append(vals, r.Value)
@@ -206,6 +226,7 @@ func (q gquery) Execute(t *incremental.Task) (int64, error) {
 		panic(pv)
 	}
 	w.memo[q.id] = true
+	w.poisoned[q.id] = false
 	w.executedBy[q.id] = run
 	return hashVals(q.id, w.input[q.id], vals), nil
 }
@@ -308,6 +329,7 @@ func (w *gworld) doEvict(keys []int, bump bool) {
 		}
 		for k := range w.upClosure(present) {
 			w.memo[k] = false
+			w.poisoned[k] = false
 		}
 	}
 	if bump {
@@ -344,7 +366,16 @@ func incrBubbleCfg(sc *Sched, w *gworld, budget int) sim.BubbleConfig {
 			// Executor.dirty is held (shared) by every Run for its whole duration; a
 			// goroutine blocked on a mutex is invisible to synctest, so the
 			// scheduler lets an eviction reach Lock only when no Run is active.
-			"i.evict.lock": func() bool { return w.activeRuns == 0 },
+			// (Nor while a straggler of a cancelled Run is still inside Execute: the
+			// model does not describe evictions that overlap an execution.)
+			"i.evict.lock": func() bool {
+				for _, x := range w.executing {
+					if x {
+						return false
+					}
+				}
+				return w.activeRuns == 0
+			},
 		},
 	}
 }
